@@ -45,13 +45,13 @@ theorem binLoop_stop (m : Nat) (acc : Expr) (rest : List Tok)
   | nil => simp [binLoop]
   | cons t ts => simp [binLoop, h t ts rfl]
 
-variable (tokOf : Op → Tok) (Pn Q : Expr → Prop) (Fn F : List Tok → Prop)
+variable (tokOf : Op → Tok) (R : Op → Prop) (Pn Q : Expr → Prop) (Fn F : List Tok → Prop)
 
 theorem binChain
     (hnext : ∀ e, Pn e → ∀ rest, Fn rest → next (printE e ++ rest) = some (e, rest))
-    (hop : ∀ op, opOf (tokOf op) = some op)
-    (hFnop : ∀ op ts, Fn (tokOf op :: ts))
-    (hdec : ∀ e, Q e → Pn e ∨ ∃ op l r, e = mk op l r ∧ Q l ∧ Pn r ∧
+    (hop : ∀ op, R op → opOf (tokOf op) = some op)
+    (hFnop : ∀ op ts, R op → Fn (tokOf op :: ts))
+    (hdec : ∀ e, Q e → Pn e ∨ ∃ op l r, R op ∧ e = mk op l r ∧ Q l ∧ Pn r ∧
       printE e = printE l ++ tokOf op :: printE r ∧ sizeE l < sizeE e) :
     ∀ n e, sizeE e ≤ n → Q e → ∀ rest, Fn rest →
       ∃ j, j ≤ (printE e).length ∧ ∀ m,
@@ -63,9 +63,9 @@ theorem binChain
   | zero => intro e h; have := sizeE_pos e; omega
   | succ n ih =>
     intro e hsz hq rest hf
-    rcases hdec e hq with hp | ⟨op, l, r, he, hql, hpr, hpe, hlt⟩
+    rcases hdec e hq with hp | ⟨op, l, r, hR, he, hql, hpr, hpe, hlt⟩
     · exact ⟨0, Nat.zero_le _, fun m => by simp [hnext e hp rest hf]⟩
-    · have hfl : Fn (tokOf op :: (printE r ++ rest)) := hFnop op _
+    · have hfl : Fn (tokOf op :: (printE r ++ rest)) := hFnop op _ hR
       obtain ⟨j, hj, hrun⟩ := ih l (by omega) hql (tokOf op :: (printE r ++ rest)) hfl
       refine ⟨j + 1, ?_, ?_⟩
       · rw [hpe]; simp only [List.length_append, List.length_cons]; omega
@@ -75,19 +75,19 @@ theorem binChain
         rw [e1]
         have := hrun (m + 1)
         rw [show m + (j + 1) = m + 1 + j by omega, this]
-        simp [binLoop, hop, hnext r hpr rest hf, he]
+        simp [binLoop, hop op hR, hnext r hpr rest hf, he]
 
 theorem binLevel_rt
     (hnext : ∀ e, Pn e → ∀ rest, Fn rest → next (printE e ++ rest) = some (e, rest))
-    (hop : ∀ op, opOf (tokOf op) = some op)
-    (hFnop : ∀ op ts, Fn (tokOf op :: ts))
+    (hop : ∀ op, R op → opOf (tokOf op) = some op)
+    (hFnop : ∀ op ts, R op → Fn (tokOf op :: ts))
     (hFFn : ∀ rest, F rest → Fn rest)
     (hFstop : ∀ t ts, F (t :: ts) → opOf t = none)
-    (hdec : ∀ e, Q e → Pn e ∨ ∃ op l r, e = mk op l r ∧ Q l ∧ Pn r ∧
+    (hdec : ∀ e, Q e → Pn e ∨ ∃ op l r, R op ∧ e = mk op l r ∧ Q l ∧ Pn r ∧
       printE e = printE l ++ tokOf op :: printE r ∧ sizeE l < sizeE e)
     (e : Expr) (hq : Q e) (rest : List Tok) (hf : F rest) :
     binLevel next opOf mk (printE e ++ rest) = some (e, rest) := by
-  obtain ⟨j, hj, hrun⟩ := binChain next opOf mk tokOf Pn Q Fn hnext hop hFnop hdec (sizeE e) e (Nat.le_refl _) hq rest (hFFn rest hf)
+  obtain ⟨j, hj, hrun⟩ := binChain next opOf mk tokOf R Pn Q Fn hnext hop hFnop hdec (sizeE e) e (Nat.le_refl _) hq rest (hFFn rest hf)
   unfold binLevel
   have hlen : (printE e ++ rest).length + 1 = ((printE e ++ rest).length - j) + 1 + j := by
     simp only [List.length_append]; omega
